@@ -239,17 +239,38 @@ def devirtualise(body):
             return target(rv["op"], depth + 1)
         if rv["k"] == "cast" and "ReifyFnPointer" in (rv.get("ck") or ""):
             return target(rv["op"], depth + 1)
+        if rv["k"] == "cast" and "ClosureFnPointer" in (rv.get("ck") or ""):
+            # a non-capturing closure used as a function pointer: the closure value itself
+            inner = rv["op"]
+            if inner.get("k") in ("copy", "move") and not inner.get("p"):
+                ds2 = defs.get(inner["l"], [])
+                if len(ds2) == 1 and ds2[0] is not None and ds2[0]["k"] == "agg" and ds2[0].get("ak") == "closure" and not ds2[0]["ops"]:
+                    return {"closure": ds2[0]["def"], "local": inner["l"]}
         return None
 
-    for bl in body["blocks"]:
-        t = bl["term"]
+    for bi in range(len(body["blocks"])):
+        t = body["blocks"][bi]["term"]
         if t["k"] == "call" and t["callee"] == "<indirect>" and t.get("func"):
             c = target(t["func"])
-            if c is not None:
-                t["callee"] = c["fn"]
-                t["callee_args"] = c.get("fn_args", [])
-                t["devirtualised"] = True
+            if c is None:
+                continue
+            if "closure" in c:
+                # splice the closure's body: its environment is the (empty) closure value, its other parameters the arguments
+                cb = [x for x in (_BODIES or []) if x["def"] == c["closure"] and x.get("promoted") is None]
+                if len(cb) != 1 or cb[0]["arg_count"] != len(t["args"]) + 1 or t.get("t") is None:
+                    continue
+                span = t.get("span", {"s": "", "x": False})
+                env_rv = {"k": "ref", "mut": False, "place": {"l": c["local"], "p": [], "ty": ""}}
+                entry, binds = splice(body, copy.deepcopy(cb[0]), [env_rv] + [{"k": "use", "op": a} for a in t["args"]], t["dest"], t["t"], span)
+                body["blocks"][bi]["stmts"].extend(binds)
+                body["blocks"][bi]["term"] = {"k": "goto", "t": entry, "span": span, "inlined_call": c["closure"], "orig_call": {"callee": "<indirect>", "resolved": None}}
+                body.setdefault("inlined_closures", []).append(c["closure"])
                 n += 1
+                continue
+            t["callee"] = c["fn"]
+            t["callee_args"] = c.get("fn_args", [])
+            t["devirtualised"] = True
+            n += 1
     return n
 
 
